@@ -85,6 +85,7 @@ def errTag : ParseErr → String
   | .fixedConfig => "fixedcfg"
   | .unitKey => "unit"
   | .emptyKey => "empty"
+  | .unknownOrder => "unknownorder"
 
 def addKeys (streams : List (List Nat)) (i : Nat) (ks : List Nat) : List (List Nat) :=
   streams.set i ((streams.getD i []) ++ ks)
